@@ -5,6 +5,7 @@ CONSTANTS
   MaxValLast = 1
   MaxDoc = 1
   Limits = {99, 0, 1, 3}
+  ExtSets = {{}, {3}}
   Sites = {"content", "attr", "attdef"}
   ScnSet = {"IG", "DG"}
   ApiSet = {"RAW"}
